@@ -1,14 +1,8 @@
 #!/venv/bin/python
-"""C20 (PARTIAL: ESS and trimming) - weight utilities of tempest.tools.
+"""C20 - weight utilities of tempest.tools: ESS, trimming, volume-variation metric.
 
-Scope.  Decided here: the ESS clauses (ESS in [1, N], invariant to rescaling, = N for uniform weights; also the
-log-weight variant compute_ess) and the trimming contract of trim_weights (normalised subset, exactly the samples
-at or above a weight threshold, ESS ratio >= ess, samples and weights aligned, termination).  NOT addressed: the
-affine / rescaling invariance of volume_variation (real linear algebra) - only its non-negativity and the
-`n < d+1` guard are *monitored* on a few inputs and reported under `monitoring_only_volume_variation`.
-
-Method.  TLC enumerates specs/Trim.tla (integer weight vectors; the while-loop of trim_weights, one action per
-iteration; numpy's linear-interpolated percentile over rationals) and checks the property invariants on the
+ESS and trimming (specs/Trim.tla).  TLC enumerates integer weight vectors, the while-loop of trim_weights (one action
+per iteration; numpy's linear-interpolated percentile over rationals) and checks the property invariants on the
 specification.  Binding B: every terminal state whose floating-point decisions are robust (the spec flags exact
 ties / narrow margins; flagged states are counted, not replayed) is replayed into tools.trim_weights at the scales
 2^-400, 1, 2^400, and every enumerated weight vector into tools.effective_sample_size / tools.compute_ess.
@@ -16,11 +10,29 @@ Outcomes are judged against the property text (upper set, ESS ratio, normalisati
 against the spec's code-shaped result (a different but property-conforming subset is a *deviation*: counted,
 not a violation).
 
-A Python transliteration of the spec operators (class TrimSpec, same operator names) is validated against EVERY
+A Python transliteration of the Trim operators (class TrimSpec, same operator names) is validated against EVERY
 TLC-enumerated state of every run (each dumped state must be a state of the transliterated behaviour of its input,
 and the total number of states must agree with an independent enumeration of the inputs) and is then used as the
 oracle for inputs TLC cannot hold in 32-bit integers: geometric weight vectors 2^-sj with dynamic range up to
 2^996 (~1e300), lengths up to 1e4, and seeded random skewed integer vectors.
+
+Volume-variation metric (specs/VolVar.tla).  Samples on a small integer lattice (d = 1, 2; N <= 4), integer weights,
+everything in exact gcd-reduced rationals as the code computes it (normalised weights, mean, centred samples,
+covariance, inverse by adjugate/determinant, Mahalanobis distances).  CV^2 is kept as the sequence of its signed
+roots (v_i/W)(d_i^2 - n_dim)/2 because the sum itself does not fit 32-bit integers; TLC checks exactly, on every
+non-degenerate instance: positive-definiteness and positive denominators (CV^2 is a sum of squares), invariance of
+the roots under weight rescaling, permutation (equivariance), integer translations, a set of invertible integer
+linear maps and their compositions, the trace identity sum p_i d_i^2 = n_dim, and that the one-pass covariance
+E[xx^T] - mm^T is the same matrix in exact arithmetic.  Three seeded wrong definitions must be refuted by TLC.
+Binding B: every enumerated instance is replayed into tools.volume_variation and compared with sqrt(CV^2) (the sum of
+the dumped roots' squares, exact fractions), then through a SCALE FAMILY of exact (dyadic) affine images whose
+expected value is the spec's value of the small instance: translations by 1e3/1e6/1e8 x spread, isotropic scalings
+2^-20 / 2^20, anisotropic scalings of condition number ~1e6, a dyadic similarity and shear, a rotated anisotropic map,
+weight rescalings 2^-996 / 2^996.  Degenerate instances (guard, singular covariance -> regularisation branch) are
+checked for guard value / finiteness / non-negativity only.  Tolerances: VV_TOL (fixed; >= 100 x the worst error
+of the pinned implementation over the exhaustive thorough domains except the 1e-5 cap at translations by 1e8 x spread,
+where the margin is 28 x; the family is deterministic apart from one exact permutation).  The rotated anisotropic
+map of condition number 1e6 is measured and reported only (see VV_INFO_ONLY and the final report).
 """
 import itertools
 import json
@@ -613,6 +625,23 @@ def do_replay(ck, path):
 
     with open(path) as f:
         rp = json.load(f)["replay"]
+    if rp.get("kind") == "volvar":
+        x = np.array(rp["pts"], dtype=float)
+        w = np.array(rp["wts"], dtype=float)
+        for name, x2, w2 in vv_family(np, x, w, np.random.RandomState(ck.seed)):
+            if name == rp["member"]:
+                with np.errstate(all="ignore"):
+                    got = float(tools.volume_variation(x2.copy(), w2.copy()))
+                print(f"member {name}: x'={x2.tolist()} w'={w2.tolist()} -> {got!r}; recorded got={rp.get('got')!r} exact={rp.get('want')!r}")
+                if "want" in rp and name not in VV_INFO_ONLY:
+                    n, d = x.shape
+                    sw = sum(rp["wts"])
+                    omega = 0.5 * d * math.sqrt(sum((v / sw) ** 2 for v in rp["wts"]))
+                    err = abs(got - rp["want"]) / max(rp["want"], omega)
+                    if not (math.isfinite(got) and err <= VV_TOL[name]):
+                        ck.violation("volvar:invariance:replay", f"error {err:.3g} > {VV_TOL[name]:g}", rp)
+        ck.args.no_evidence = True
+        ck.finish({"states": 0, "transitions": 0, "traces_validated_against_impl": 1})
     if rp.get("kind") != "trim" or "w" not in rp:
         print("replay file carries no re-runnable trim case:", rp)
         sys.exit(2)
@@ -657,12 +686,14 @@ VV_WRONG = {"nocentre": "InvTranslate", "unnormcov": "InvWeightScale", "dminus1"
 # 1e6; any weight scale) as >= 100 x the worst error the pinned implementation shows on the whole thorough family under
 # several seeds, and never above 1e-5.  The measured worst errors are recorded in the evidence on every run.
 VV_TOL = {
-    "base": 1e-9, "perm": 1e-9, "w*2^-996": 1e-9, "w*2^996": 1e-9,
-    "iso*2^-20": 1e-9, "iso*2^20": 1e-9, "aniso(1,2^-20)": 1e-9, "aniso(2^10,2^-10)": 1e-9,
-    "rot(.5,.75)": 1e-9, "shear(.375)": 1e-9,
-    "shift1e3": 1e-9, "shift1e6": 1e-7, "shift1e8": 1e-5,
-    "aniso(1,2^-20)+shift1e6": 1e-7,
-    "rot*aniso(2^5,2^-5)": 1e-7, "scale*-3*2^20": 1e-9,
+    # exact dyadic images (worst observed 2.6e-14 on the thorough domains)
+    "base": 1e-11, "perm": 1e-11, "w*2^-996": 1e-11, "w*2^996": 1e-11,
+    "iso*2^-20": 1e-11, "iso*2^20": 1e-11, "scale*-3*2^20": 1e-11,
+    "aniso(1,2^-20)": 1e-11, "aniso(2^10,2^-10)": 1e-11, "rot(.5,.75)": 1e-11, "shear(.375)": 1e-11,
+    # translations by t x spread: worst observed 4.1e-12 / 5.7e-9 / 3.6e-7 (rounding of the mean, ~ eps * t)
+    "shift1e3": 1e-9, "shift1e6": 1e-6, "shift1e8": 1e-5,
+    "aniso(1,2^-20)+shift1e6": 1e-6,          # worst observed 5.7e-9
+    "rot*aniso(2^5,2^-5)": 1e-6,              # condition number 1e3, not axis-aligned: worst observed 4.2e-9
 }
 # reported only (conditioning of a rotated 1e6-anisotropic cloud: cond(cov) ~ 1e12): measured, never judged
 VV_INFO_ONLY = ("rot*aniso(2^10,2^-10)",)
@@ -739,7 +770,7 @@ def vv_worker(job):
                 r["worst"][name] = (err, pts, wts, got, want)
             if name not in VV_INFO_ONLY and err > VV_TOL[name]:
                 if len(r["viol"]) < 40:
-                    r["viol"].append(("volvar:invariance:" + name.split("1e")[0].split("(")[0].split("*")[0],
+                    r["viol"].append(("volvar:value" if name == "base" else "volvar:invariance:" + name.split("1e")[0].split("(")[0].split("*")[0],
                                       f"volume_variation = {got!r} on the image '{name}' of an instance whose exact value is "
                                       f"{want!r} (error {err:.3g} > {VV_TOL[name]:g})",
                                       {"kind": "volvar", "pts": pts, "wts": wts, "member": name, "got": got, "want": want}))
@@ -1100,7 +1131,7 @@ def main():
     n_trim_calls = agg["evals"]
     info["caller_array_normalised_in_place"] = f"{agg['inplace']} of the replayed calls left the passed array normalised (documented `weights /= sum`)"
 
-    # ---- MONITORING ONLY: volume_variation non-negativity and the n < d+1 guard (invariances NOT addressed)
+    # ---- additional monitoring (random clouds, d up to 5): volume_variation non-negativity and the n < d+1 guard
     mon = {"evaluated": 0, "guard_cases": 0, "guard_returned_1e10": 0, "nonnegative_finite": 0, "nan": 0, "negative": 0}
     for d in (1, 2, 3, 5):
         for n in (1, d, d + 1, d + 2, 10, 50):
@@ -1138,7 +1169,8 @@ def main():
         "decisions are replayed only where the exact relative margin exceeds 1e-9 (flagged states counted, not replayed)",
         "the Python transliteration TrimSpec is trusted only as far as its agreement with every TLC-enumerated state "
         "(set equality of the state spaces of all runs) extends to larger integers: the operators are polynomial in the entries",
-        "volume_variation: monitoring only; affine/rescaling invariance is not addressed by this technique",
+        "volume_variation: decided on lattice instances with d <= 2, N <= 4 and their exact dyadic affine images; the "
+        "acceptance thresholds VV_TOL are fixed constants chosen from the measured accuracy of the pinned implementation",
     ]
     ck.finish({
         "states": tot_states + vv.get("states", 0),
@@ -1151,7 +1183,8 @@ def main():
                 "(ids as samples; at scale 1 and the smallest ess also 2-column tagged rows); each enumerated vector goes through "
                 "effective_sample_size and compute_ess (positive entries / zeros as -inf) at 3 scales",
         "exhaustive": True,
-        "scope": "PARTIAL: ESS and trimming clauses only; volume-variation invariances not addressed",
+        "scope": "ESS, trimming, and the volume-variation clause on lattice instances + exact scale family (d <= 2, N <= 4); "
+                 "a rotated anisotropic map of condition number 1e6 is measured, not judged (see volume_variation.worst_observed_error)",
         "behaviours_terminal": agg["terminal"],
         "behaviours_with_retreat": agg["retreated"],
         "flagged_not_replayed": {k: v for k, v in agg["flag_counts"].items() if k},
